@@ -85,6 +85,23 @@ tree after the `name` callback, handed on by `toR`).  Theorems quantify over ALL
   (tags `parsed-sem:*:benchArityB=` / `vArityB=`; disagreement with the generator's knowledge = broken tie); the generators produce
   5..9-input gates (bench kinds, library PRIM), the oracle's ground truth is n-ary, its class `wide-gate` is known finding D33;
   outside the domain σ is compared with the first-four-operands reading (the model follows the code).
+  **Audit finding 10, what was done and what stays restricted.**  (a) TEXT LAYOUTS: `bench_text_layout_irrelevant` / `bench_text_to_net`
+  quantify over the layouts of the CANONICAL token stream `benchToks` — every interface statement spelled `INPUT`; texts spelling
+  `OUTPUT(` / `input(` / `output(` are NOT covered by the layout theorems (they are by `parseBench` itself, by the concrete examples and
+  by the correspondence run on every generated text, which uses all four spellings); `verilog_text_layout_irrelevant` likewise
+  covers plain names written plain and canonical digit strings: escaped spellings of plain names (`\a `) and non-canonical numbers
+  (`[03:0]`) are outside the layout theorems (correspondence only); `verilog_text_to_net` is about the PRINTED text, its "any layout"
+  is `verilog_text_layout_irrelevant` composed by hand (same `parseVerilog` result), not a separate theorem.  NOT DONE: token classes
+  for keyword spellings.  (b) `circOfText` now contains the transformer's raise guard `RStmt.ok` (zero-width / out-of-base sized
+  constants).  (c) `VModel` uses the builder's `assignPairs (sigDecls …)`, `outSig`, `inputNames`, `posNames`: bus-bit order, assign bit
+  pairing, selects, concatenations, sized constants and declaration look-up are NOT re-specified inside the denotation; these clauses
+  rest on `range_expand` (`rangeList` against the closed forms `l + i` / `l - i`), `const_expand` (against `Nat.testBit` of the parsed
+  number), `concat_flat`, `sig_decls_lookup` / `_nonwire_wins` / `_wire_last`, `ports_order` (`io_nodes` = `posNames`), `assign_pairs_expand`
+  — each pins its function against an independent closed form, except `posNames` / `expandSigs` themselves, which are DEFINITIONS shared
+  by builder and denotation (their reading "port list expanded by declared range in declared direction" is `ports_order_expansion` +
+  `decl_names_*`).  (d) `assign_line`, `assign_line_driven_source`, `reader_onebit_fallback`, `assign_order_matters`, `onebit_bus_index`
+  are marked as statements about the EARLIER code.  (e) coverage: a Verilog case inside `verilogOKB` whose σ was compared with nothing
+  (`linesDrivenB` false: kinds unknown to the simulator) is no longer counted as `parsed-sem:verilog:covered`.
   Hypotheses of the end-to-end theorems `orderOKB` / `forksOKB` / `linesDrivenB` are decidable conditions on (net, order); for
   bench they follow from the description (`bench_sched_hyps`, `bench_end_to_end_closed`: closed description over kinds the prefix
   table knows, a topological order that covers every node), for Verilog they are hypotheses.  For bench `benchOKB` is exactly
@@ -380,7 +397,7 @@ theorem pin_reaches_input (cfg : Cfg) (tl : TL) (ports : List String) (stmts : L
 theorem reader_of_driven (cfg : Cfg) (ds : List Decl) (C : Circ) (s : String) (h : C.isFork s = true) :
     resolveRead cfg ds C s = (s, false) := resolveRead_of_isFork cfg ds C s h
 
-/-- the code as it stands resolves a 1-bit bus named by its base only through the literal index 0 -/
+/-- **[about the EARLIER code — `assignFix = false` / `onebitDecl = false` are pass 1.5 / pass 2 before the repairs of findings D23/D24; kept as the record of those findings, not a statement about the code under test after the repairs]** the code as it stands resolves a 1-bit bus named by its base only through the literal index 0 -/
 theorem reader_onebit_fallback (ds : List Decl) (C : Circ) (s : String) (h0 : C.isFork s = false) :
     resolveRead {} ds C s = if C.isFork (s ++ "[0]") then (s ++ "[0]", false) else (s, true) := by
   simp [resolveRead, h0]
@@ -409,7 +426,7 @@ theorem pin_reaches (cfg : Cfg) (tl : TL) (ports : List String) (stmts : List St
     · exact Or.inr ⟨hc, k, hk, hl⟩
 
 /-! ## assigns -/
-/-- One (target, source) bit pair of the assigns (`assignPairs`: both sides expanded through `sig_decls`, zipped), in the
+/-- **[about the EARLIER code — `assignFix = false` / `onebitDecl = false` are pass 1.5 / pass 2 before the repairs of findings D23/D24; kept as the record of those findings, not a statement about the code under test after the repairs]** One (target, source) bit pair of the assigns (`assignPairs`: both sides expanded through `sig_decls`, zipped), in the
 code as it stands (`assignFix = false`).  `C` is the circuit at the moment the pair is visited.
 * target already a fork → line `t → s` (the source becomes an alias of the target);
 * else source a fork → line `s → t`;
@@ -444,7 +461,7 @@ theorem assign_line (cfg : Cfg) (hcfg : cfg.assignFix = false) (tl : TL) (ports 
   · exact ⟨hsub.lines _ (s3 h1 h2 h3).1, hsub.nodes _ (s3 h1 h2 h3).2⟩
   · rw [h15, s4 h1 h2 h3]
 
-/-- corollary in netlist terms: a source that is driven by a cell or is an input (a fork after pass 1) and a target that
+/-- **[about the EARLIER code — `assignFix = false` / `onebitDecl = false` are pass 1.5 / pass 2 before the repairs of findings D23/D24; kept as the record of those findings, not a statement about the code under test after the repairs]** corollary in netlist terms: a source that is driven by a cell or is an input (a fork after pass 1) and a target that
 nothing has driven so far give the line source → target -/
 theorem assign_line_driven_source (cfg : Cfg) (hcfg : cfg.assignFix = false) (tl : TL) (ports : List String) (stmts : List Stmt)
     (pre post : List (String × String)) (t s : String)
@@ -590,7 +607,7 @@ example : (⟨.fork "e[0]", .cell "u2" 0, none⟩ : LineM) ∈ (module {} exTL [
 example : (⟨.fork "a[1]", .cell "u1" 0, some "a[1]~u1/A1"⟩ : LineM) ∈ (module { bf := true } exTL ["z", "a", "e"] exStmts).lines ∧
     (⟨forkKind, "a[1]~u1/A1", true⟩ : NodeM) ∈ (module { bf := true } exTL ["z", "a", "e"] exStmts).nodes := by decide +kernel
 
-/-- Statement order matters in the code as it stands: `assign z = b; assign b = a;` leaves `z` without driver (the first
+/-- **[about the EARLIER code — `assignFix = false` / `onebitDecl = false` are pass 1.5 / pass 2 before the repairs of findings D23/D24; kept as the record of those findings, not a statement about the code under test after the repairs]** Statement order matters in the code as it stands: `assign z = b; assign b = a;` leaves `z` without driver (the first
 assign is dropped: neither `z` nor `b` is driven when it is visited), `assign b = a; assign z = b;` connects it.  The
 repaired pass 1.5 gives the same lines for both orders. -/
 theorem assign_order_matters :
@@ -604,7 +621,7 @@ theorem assign_order_matters :
     (⟨.fork "z", .cell "z" 0, none⟩ : LineM) ∈ (module { assignFix := true } exTL ["a", "z"] (decls ++ [zb, ba])).lines := by
   decide +kernel
 
-/-- The 1-bit-bus fall-back of pass 2 tries index 0 only: with `input [3:3] a` a pin `.I(a)` reads a new undriven fork `a`
+/-- **[about the EARLIER code — `assignFix = false` / `onebitDecl = false` are pass 1.5 / pass 2 before the repairs of findings D23/D24; kept as the record of those findings, not a statement about the code under test after the repairs]** The 1-bit-bus fall-back of pass 2 tries index 0 only: with `input [3:3] a` a pin `.I(a)` reads a new undriven fork `a`
 in the code as it stands, and the fork `a[3]` with the repaired look-up through the declaration. -/
 theorem onebit_bus_index :
     let st := [Stmt.decls [⟨.input, "a", some [3]⟩], Stmt.decls [⟨.output, "z", none⟩],
@@ -713,11 +730,12 @@ theorem verilog_text_layout_irrelevant (ms : List VModule) (hv : ms.all validMod
 /-- text → netlist: for a module whose statements the post-parse model accepts (`toRs`: no name with an apostrophe other
 than sized constants), the circuit built from the model's own reading of the printed text is `module` of the transformed
 statement list — so `ports_order`, `pin_reaches`, `readers_exact`, `assign_line`, … above speak about circuits built from
-TEXT; an instantiation with a positional pin sets `err` (the real `module()` raises) -/
+TEXT; an instantiation with a positional pin sets `err` (the real `module()` raises), and so does a sized constant `sigsel` raises
+on (`RStmt.ok` false: `assign z = 0'b1;` — audit finding 10(b): the guard is now inside `circOfText`) -/
 theorem verilog_text_to_netlist (cfg : Cfg) (tl : TL) (m : VModule) (rs : List RStmt) (hv : validModule m = true)
     (hr : toRs m.stmts = some rs) :
     KV.VerilogText.circOfText cfg tl (printVerilog [m]) =
-      some ((module cfg tl m.ports (rs.map transform)).failIf (m.stmts.any VStmt.hasPos)) := by
+      some ((module cfg tl m.ports (rs.map transform)).failIf (m.stmts.any VStmt.hasPos || !(rs.all RStmt.ok))) := by
   have := verilog_text_roundtrip [m] (by simp [hv])
   simp only [KV.VerilogText.circOfText, this, hr]
 
@@ -736,6 +754,10 @@ example : printVerilog [exVM] =
   decide +kernel
 example : parseVerilog (printVerilog [exVM]) = some [exVM] := by decide +kernel
 example : (toRs exVM.stmts).isSome = true ∧ exVM.stmts.any VStmt.hasPos = true := by decide +kernel
+/-- the guard: a zero-width / out-of-base sized constant builds nothing (the real `verilog.parse` raises) -/
+example : (circOfText {} exTL "module m(z); output z; assign z = 0'b1; endmodule").map (·.err) = some true ∧
+    (circOfText {} exTL "module m(z); output z; assign z = 1'b2; endmodule").map (·.err) = some true ∧
+    (circOfText {} exTL "module m(z); output z; assign z = 1'b1; endmodule").map (·.err) = some false := by decide +kernel
 
 /-- concrete texts: comments of the three kinds, `\r\n`, an attribute between `(` tokens, keywords as plain names, `module`
 glued to the name, two modules -/
